@@ -198,7 +198,26 @@ def priority(ctx) -> None:
     ctx.check(not writes, 'C09.priority', matcher.ref, 'a veto is never revoked', key='matcher:monotone', loc=matcher.module.relpath)
 
 
+def pool_complete(ctx) -> None:
+    """Every configured feed reference becomes a member of the pool: ``Multi._lookup`` builds one section per reference and
+    keeps them all (sorted, not de-duplicated) - feed descriptors compare equal by provider (priority aside), so a set would
+    collapse two [FEED.*] sections backed by one provider class into one and the importer would never see the other."""
+    prog = ctx.prog
+    fn = prog.func('forml.setup._conf:Multi._lookup').normal()
+    ret = next((r for r in core.walk_local(fn.node) if isinstance(r, ast.Return)), None)
+    ok = False
+    v = ret.value if ret is not None else None
+    while isinstance(v, ast.Call) and isinstance(v.func, ast.Name) and v.func.id in ('tuple', 'list', 'sorted') and len(v.args) == 1:
+        v = v.args[0]
+    if isinstance(v, (ast.GeneratorExp, ast.ListComp)) and len(v.generators) == 1 and not v.generators[0].ifs:
+        g = v.generators[0]
+        ok = isinstance(v.elt, ast.Call) and core.src(v.elt.func) == 'cls' and [core.src(a) for a in v.elt.args] == [core.src(g.target)] and not any(isinstance(x, (ast.Set, ast.SetComp, ast.Dict, ast.DictComp)) or (isinstance(x, ast.Call) and isinstance(x.func, ast.Name) and x.func.id in ('set', 'frozenset', 'dict')) for x in ast.walk(g.iter))
+    orig = prog.func('forml.setup._conf:Multi._lookup')
+    ctx.check(ok, 'C09.pool', orig, 'one section per configured reference, all of them kept (no set / dict in between)', orig.node, key='lookup:complete')
+
+
 def run(ctx) -> None:
+    pool_complete(ctx)
     sibling(ctx)
     membership(ctx)
     priority(ctx)
